@@ -144,14 +144,14 @@ NESTED3_NAMES = [
 ]
 
 
-LONG_CALLER = "wątek-" + "é€" * 29
+LONG_CALLER = "wątek-" + "é€" * 100  # 206 characters, 506 bytes
 
 
 def threads_set(tier):
     """C08: flat profiles x 3 caller names with thread-identity checks; nested spawn macros (names only)."""
     out = []
     callers = ("main", "w7", None)
-    # a caller whose name is long and not ASCII (2- and 3-byte characters, 150 bytes): the composed thread name is the whole name
+    # a caller whose name is long and not ASCII (2- and 3-byte characters, 206 characters / 506 bytes): the composed thread name is the whole name
     # ... and a caller whose name is present but EMPTY (the prefix is then the empty string: `_join_0`)
     callers_long = callers + (LONG_CALLER, "")
     profs = list(fp.profiles(3, 3))
